@@ -624,6 +624,18 @@ func c03NoBlockAbove(db *tsdb.DB, t int64) bool {
 	return true
 }
 
+// c03Report files a failed verdict: the named deviations of the code (known findings, see Crash.tla CKF) as Deviation
+// records (matched against known_findings.json by the driver, not counted as violations here), anything else as Violation.
+func c03Report(prefix, sig, msg string, c any) {
+	switch {
+	case strings.HasSuffix(sig, "wbl-skipped-after-wal-repair"), strings.HasSuffix(sig, "repair-file-left:acked-sample-lost"),
+		strings.HasSuffix(sig, "deleted-sample-replayed-from-wal"), strings.HasSuffix(sig, "failed-open-changed-undamaged-data:cp"):
+		verifh.Deviation(prefix+sig, msg, c)
+	default:
+		verifh.Violation(prefix+sig, msg, c)
+	}
+}
+
 // c03Equal: got == exp exactly (with alternatives).
 func c03Equal(c dbConc, got c03Contents, exp map[string][]dbExp) bool {
 	if sig, _ := c03Bounds(c, got, exp, exp); sig != "" {
@@ -944,7 +956,7 @@ func TestVerifC03Crash(t *testing.T) {
 			}
 			// a kill after the last operation is a crash point too: judge it
 			if sig, msg, _ := c03Verdict(cs.W, seedOf(ci), filepath.Join(sc, "db"), run, c03Point{site: "end-of-workload", hit: 1}); sig != "" {
-				verifh.Violation(sig, fmt.Sprintf("workload %d: %s", ci, msg), map[string]any{"workload": cs.W, "crash": "end-of-workload", "seed": seedOf(ci)})
+				c03Report("", sig, fmt.Sprintf("workload %d: %s", ci, msg), map[string]any{"workload": cs.W, "crash": "end-of-workload", "seed": seedOf(ci)})
 			}
 			nruns.Add(1)
 			modelled := map[string]bool{}
@@ -1073,7 +1085,7 @@ func TestVerifC03Crash(t *testing.T) {
 				inflSeen[run.inflA]++
 				mu.Unlock()
 				if sig != "" {
-					verifh.Violation(sig, fmt.Sprintf("workload %d: %s", j.ci, msg),
+					c03Report("", sig, fmt.Sprintf("workload %d: %s", j.ci, msg),
 						map[string]any{"workload": cs.W, "crash": j.pt.String(), "seed": seedOf(j.ci), "acked": run.acked, "inflight": run.inflight})
 				} else if j.pt.model != nil && !run.ended && got != nil {
 					// the model's own prediction for this crash point (stronger than the property: drift only)
